@@ -643,7 +643,7 @@ def run(tier, seed):
     if tier == "thorough" and not os.environ.get("VERIF_OVERLAY"):
         import sanitize
         sanitize.overlay(rep, "asan", timeout=5400)
-        sanitize.miri(rep, [["ops", seed, 60, sh] for sh in range(16)] + [["iso", seed, 10, sh] for sh in range(16)], timeout=2400)
+        sanitize.miri(rep, [["ops", seed, 60, sh] for sh in range(16)] + [["iso", seed, 10, sh] for sh in range(16)], timeout=2400, sig_prefix="kernel:")
     return rep.finish()
 
 
